@@ -2880,3 +2880,225 @@ def r25(cx):
 
 
 RS.explanation += ' The simulated exit() keeps the low 8 bits of the status, as wait(2) does (R25).'
+
+
+# ---------------------------------------------------------------------------------------
+# added for the independent seed C05-s8 (a trailing `/` accepted after a symbolic link): the kind tests of the simulated path walk
+# as a table over ALL FileBody variants. R19 says every step is behind a kind test; this rule says what every kind test lets through.
+_COMPONENTS_NEXT = re.compile(r'Components<.*> as core::iter::traits::(iterator::Iterator|double_ended::DoubleEndedIterator)>::next(_back)?$')
+_ENDS_WITH = [re.compile(r'::ends_with$')]
+_ENDINGS = ('/', '/.')
+
+
+def _literal_text(du, operand, depth=6):
+    """Text of the string / byte-string literal an operand is (a reference to, an unsized view of): b"/." -> '/.'; else None."""
+    o = operand
+    for _ in range(depth):
+        if 'cp' not in o and 'mv' not in o:
+            m = re.match(r'^(?:const )?b?"(.*)"$', str(o.get('c')))
+            return m.group(1) if m else None
+        p = Q.operand_place(o)
+        d = du.single_def(p['l'])
+        if d is None or d[1] == 't' or d[2]['k'] != 'assign':
+            return None
+        rv = d[2]['rv']
+        if rv['k'] in ('use', 'cast'):
+            o = rv['o']
+        elif rv['k'] == 'ref':
+            o = {'cp': {'l': rv['pl']['l']}}
+        else:
+            return None
+    return None
+
+
+def _feasible_path(body, du, goals, force=None, avoid=(), ending=None):
+    """A path entry -> goal block that is feasible for a pathname with the given ending: bool locals assigned constants (the
+    materialised `matches!`, `&&`, `||`, `!`) are tracked along the path and a later switch on them follows the matching edge only;
+    `x.ends_with(<literal>)` answers what the ending says. With force=(u, v) the path leaves block u by the edge to v only and must
+    take it at least once. Blocks in `avoid` are not entered. Returns the block list or None."""
+    from collections import deque
+    goals, avoid = set(goals), set(avoid)
+
+    def value(o, known, depth=4):
+        if 'cp' not in o and 'mv' not in o:
+            return {'true': True, 'false': False, 'const true': True, 'const false': False}.get(str(o.get('c')))
+        p = Q.operand_place(o)
+        if p.get('p'):
+            return None
+        if p['l'] in known:
+            return known[p['l']]
+        d = du.single_def(p['l'])
+        if depth == 0 or d is None or d[1] == 't' or d[2]['k'] != 'assign':
+            return None
+        rv = d[2]['rv']
+        if rv['k'] == 'use':
+            return value(rv['o'], known, depth - 1)
+        if rv['k'] == 'unop' and rv.get('op') == 'Not':
+            v = value(rv['o'], known, depth - 1)
+            return None if v is None else not v
+        return None
+
+    def after(b, known):
+        known = dict(known)
+        for s in body.blocks[b]['s']:
+            if s['k'] != 'assign':
+                continue
+            l = s['lhs']['l']
+            v = None
+            if not s['lhs'].get('p') and body.locals[l]['ty'] == 'bool':
+                rv = s['rv']
+                if rv['k'] == 'use':
+                    v = value(rv['o'], known)
+                elif rv['k'] == 'unop' and rv.get('op') == 'Not':
+                    v = value(rv['o'], known)
+                    v = None if v is None else not v
+            if v is None:
+                known.pop(l, None)
+            else:
+                known[l] = v
+        t = body.term(b)
+        if t['k'] == 'call' and not t['dest'].get('p'):
+            known.pop(t['dest']['l'], None)
+            if ending is not None and Q.callee_is(t, _ENDS_WITH) and len(t['a']) == 2:
+                lit = _literal_text(du, t['a'][1])
+                if lit in _ENDINGS:
+                    known[t['dest']['l']] = (lit == ending)
+        return known
+
+    first = (0, (), False)
+    prev = {first: None}
+    q = deque([first])
+    while q:
+        node = q.popleft()
+        b, kn, passed = node
+        if b in goals and (passed or force is None):
+            path = []
+            while node is not None:
+                path.append(node[0])
+                node = prev[node]
+            return path[::-1]
+        known = after(b, dict(kn))
+        t = body.term(b)
+        succs = body.succ(b)
+        if t['k'] == 'switch' and t.get('dty') == 'bool':
+            v = value(t['d'], known)
+            if v is not None:
+                hit = [tgt for val, tgt in t['ts'] if bool(val) == v]
+                succs = hit[:1] if hit else [t['else']]
+        for s in succs:
+            p2 = passed
+            if force is not None and b == force[0]:
+                if s != force[1]:
+                    continue
+                p2 = True
+            if s in avoid:
+                continue
+            st = (s, tuple(sorted(known.items())), p2)
+            if st not in prev:
+                prev[st] = node
+                q.append(st)
+    return None
+
+
+@RS.rule('C19.R19b', 'K-TABLE', 'ENOTDIR, the other half of R19: every kind test of the simulated path walk lets a Directory through and '
+         'NOTHING else - for each FileBody variant but Directory, a name looked up in it, `..` of it, and a trailing `/` or `/.` after it '
+         'end in ENOTDIR, never in Ok (the walk does not follow links: a symbolic link let through under a trailing slash is handed to '
+         'fstatat(nofollow) as an existing file, and `d/*/` lists links to regular files and dangling links)')
+def r19b(cx):
+    F = cx.F
+    cands = [b for k, b in F.bodies.items() if k.startswith('yash_env::system::r#virtual::file_system::FileSystem::get') and 'main' in k]
+    cx.require(cands, 'the path walk FileSystem::get::main was not found')
+    raw = max(cands, key=lambda b: len(b.blocks))
+    body = _kernel_inlined(F, raw)
+    cx.fn(raw.fn)
+    du = Q.DefUse(body)
+    cx.require(FILE_BODY in F.adts, 'FileBody not found')
+    variants = [v['name'] for v in F.adts[FILE_BODY]['variants']]
+    cx.require('Directory' in variants and len(variants) >= 2, 'FileBody::Directory not found')
+    nxt = [blk for blk, t in body.calls() if _COMPONENTS_NEXT.search(pp.callee(t))]
+    cx.require(len(nxt) == 1, 'FileSystem::get::main no longer walks unix_path::Components with one next() call')
+    loop = {b for b in body.reachable(nxt[0]) if nxt[0] in body.reachable(b)}
+    cx.require(len(loop) >= 2, 'the walk over the components is not a loop')
+
+    def is_result(s, variant, errno=None):
+        if s['k'] != 'assign' or s['lhs']['l'] != 0 or s['lhs'].get('p'):
+            return False
+        rv = s['rv']
+        if rv['k'] != 'agg' or rv.get('adt') != 'core::result::Result' or rv.get('variant') != variant:
+            return False
+        return errno is None or any(str(o.get('cdef', '')).endswith('::Errno::' + errno) for o in rv['ops'] if isinstance(o, dict))
+    ok_blocks = {b for b, j, s in body.stmts() if is_result(s, 'Ok')}
+    enotdir_blocks = {b for b, j, s in body.stmts() if is_result(s, 'Err', 'ENOTDIR')}
+    rets = set(body.return_blocks())
+    cx.require(ok_blocks, 'FileSystem::get::main has no `Ok(node)` result (shape changed: review C19.R19b)')
+    tests = []
+    for u in sorted(body.live_blocks()):
+        ec = Q.edge_condition(F, body, du, u)
+        if not ec or ec[0]['k'] != 'discr':
+            continue
+        ty = (ec[0].get('ty') or '').lstrip('&').strip()
+        ty = ty[4:] if ty.startswith('mut ') else ty
+        if ty == FILE_BODY:
+            tests.append((u, ec[1]))
+    cx.require(tests, 'FileSystem::get::main no longer tests the kind of a file (FileBody discriminant)')
+    reqs = set()
+    finals = {e: set() for e in _ENDINGS}
+    for u, labels in tests:
+        where = 'trailing-slash' if u not in loop else 'path-walk'
+        target = {}
+        for tgt, labs in labels.items():
+            for lab in labs:
+                if lab[0] == 'variant':
+                    target[lab[1]] = tgt
+        cx.require(set(target) == set(variants), 'kind test at %s does not cover the variants of FileBody' % body.loc(body.term(u)))
+        for e in _ENDINGS:
+            live = {v: _feasible_path(body, du, rets, force=(u, target[v]), ending=e) is not None for v in variants}
+            acc = {v: _feasible_path(body, du, ok_blocks, force=(u, target[v]), ending=e) for v in variants}
+            if not any(live.values()):
+                continue                    # the test is not evaluated for a pathname with this ending
+            rejected = [v for v in variants if live[v] and acc[v] is None]
+            if not rejected:
+                cx.site('FileSystem::get: kind test at %s (%s, pathname ending %r): every kind goes on to Ok - not a directory '
+                        'requirement' % (body.loc(body.term(u)), where, e))
+                continue
+            reqs.add(u)
+            if u not in loop:
+                finals[e].add(u)
+            cx.site('FileSystem::get: %s kind test at %s, pathname ending %r: reaches Ok for %s; ENOTDIR for %s'
+                    % (where, body.loc(body.term(u)), e, [v for v in variants if acc[v] is not None] or 'nothing', rejected))
+            cx.cellcount(len(variants))
+            for v in variants:
+                if not live[v]:
+                    continue
+                if v == 'Directory':
+                    if acc[v] is None:
+                        cx.violation(raw.root, '%s:directory-rejected' % where, 'a directory does not pass the %s kind test of the simulated '
+                                     'path walk: `dir/`, `dir/.`, `dir/name` cannot be resolved' % where, loc=body.loc(body.term(u)))
+                    continue
+                if acc[v] is not None:
+                    what = {'trailing-slash': 'a pathname that ends with `/` or `/.` resolves (Ok) when its last component is a %s: a trailing '
+                                              'slash names a directory only, and the walk does not follow links, so fstatat(nofollow) - the '
+                                              'existence test of pathname expansion - reports `link/` as existing whatever the link points '
+                                              'to, and `d/*/` lists links to regular files and dangling links; a real kernel says ENOTDIR '
+                                              '(ENOENT for a dangling link)',
+                            'path-walk': 'a name or `..` is looked up in a %s as if it were a directory: `file/..` or `file/x` resolve where '
+                                         'a real kernel says ENOTDIR'}[where] % v
+                    cx.violation(raw.root, '%s:non-directory-accepted:%s' % (where, v), what, loc=body.loc(body.term(u)),
+                                 path=Q.render_path(body, acc[v]))
+                elif _feasible_path(body, du, enotdir_blocks, force=(u, target[v]), ending=e) is None:
+                    cx.violation(raw.root, '%s:not-enotdir:%s' % (where, v), 'a %s in place of a directory is refused, but not with ENOTDIR '
+                                 '(the errno a real kernel gives)' % v, loc=body.loc(body.term(u)))
+    # the final test cannot be walked around: with a trailing `/` (or `/.`) no Ok without it
+    for e in _ENDINGS:
+        p = _feasible_path(body, du, ok_blocks, avoid=finals[e], ending=e)
+        cx.site('FileSystem::get: a pathname ending %r reaches Ok only through a directory requirement on the last file (%d test(s)): %s'
+                % (e, len(finals[e]), p is None))
+        if p is not None:
+            cx.violation(raw.root, 'trailing-slash:unchecked:%s' % e, 'a pathname that ends with %r resolves without any test that its last '
+                         'file is a directory: `file%s` is an existing pathname for the simulated fstatat/open, and pathname expansion of '
+                         '`*%s` lists regular files' % (e, e, e), loc=body.loc(body.term(p[-1])), path=Q.render_path(body, p))
+    cx.floor(len(reqs), 3, 'directory requirements (name lookup and `..` in the walk; the last file under a trailing `/` or `/.`)')
+
+
+RS.explanation += (' Every kind test of the simulated path walk lets a Directory through and no other FileBody variant, a trailing `/` '
+                   'or `/.` included, and the trailing test cannot be bypassed (R19b).')
